@@ -72,7 +72,7 @@ def handle : Handler := fun cmd j =>
       let fs : Str → Option Str := fun p => if p == utf8 path then some (utf8 data) else none
       pure (Json.mkObj [("sent", ofChars sent), ("recv", pairToJson (recvEnv fs (sent ++ rest)))])
     | "depend" =>
-      let c ← chars j "cmd"
+      let c ← chars j "c"
       let sent := sendDepend c data
       let r := match recvDepend (sent ++ rest) with
         | some (c', d, r') => Json.arr #[ofChars c', ofChars d, ofChars r']
